@@ -165,3 +165,333 @@ def translate(repo):
                  "keyByObj := enumKeyIsObject }")
     lines += ["", "end Gen.C10", ""]
     return {"AkVerif/Gen/C10.lean": "\n".join(lines)}
+
+
+# ------------------------------------------------------------------ objects (built from JSON-able specs)
+class _Missing:
+    pass
+
+
+def _val(v):
+    """spec value -> python value (JSON keeps ints/strs/None/bools; tuples are written as {"t": [...]})"""
+    if isinstance(v, dict) and set(v) == {"t"}:
+        return tuple(_val(x) for x in v["t"])
+    if isinstance(v, dict) and set(v) == {"d"}:
+        return {_val(k): _val(x) for k, x in v["d"]}
+    if isinstance(v, list):
+        return [_val(x) for x in v]
+    return v
+
+
+def _mk_enum(spec, cls=None):
+    from ak.ppobj import PPEnumFieldType
+    cls = cls or PPEnumFieldType
+    values = {}
+    for val, name, synt in spec["values"]:
+        values[_val(val)] = name if synt == "" else (name, synt)
+    if spec.get("missing"):
+        values[PPEnumFieldType.MISSING] = tuple(spec["missing"])
+    return cls(values)
+
+
+class _Stub(types.SimpleNamespace):
+    pass
+
+
+def _mk_buildnum(b):
+    from ak.ghist import BuildNumData
+    if b == "not_built":
+        return BuildNumData.mk_fake_not_built()
+    if b == "not_merged":
+        return BuildNumData.mk_fake_not_merged()
+    return BuildNumData(*b)
+
+
+def _mk_ghist(spec):
+    """GHistReport over stub report data: only what ReportFormatter reads"""
+    from ak.ghist import GHistReport, ReportFormatter
+
+    def commit(c):
+        return _Stub(hexsha=c["sha"], committed_date=c["date"], message=c["msg"], author=_Stub(name=c["author"]))
+
+    def build(b):
+        rb = _Stub(build_num=_mk_buildnum(b["num"]),
+                   rcommit=_Stub(commit=commit(b["commit"])) if b.get("commit") else None,
+                   included_at=[(r, br, _mk_buildnum(n)) for r, br, n in b.get("included_at", [])],
+                   bumps={name: _Stub(to_buildnum=_mk_buildnum(t), from_build_nums=[_mk_buildnum(f) for f in fr])
+                          for name, t, fr in b.get("bumps", [])})
+        rcs = [_Stub(commit=commit(c)) for c in b.get("commits", [])]
+        rb.get_printable_rcommits = lambda: rcs
+        return rb
+
+    data = []
+    for repo_id, branches in spec["repos"]:
+        brs = []
+        for name, builds in branches:
+            bl = [build(b) for b in builds]
+            br = _Stub(branch_name=name)
+            br.get_rbuilds_list = (lambda bl=bl: bl)
+            brs.append(br)
+        data.append((repo_id, _Stub(branches=brs)))
+    return GHistReport(data, ReportFormatter())
+
+
+def _mk_hfunc(spec):
+    from ak.hdoc import h_doc
+    ns = {}
+    exec("def %s(%s):\n    pass\n" % (spec["name"], spec["args"]), ns)
+    f = ns[spec["name"]]
+    f.__doc__ = spec["doc"]
+    return h_doc(f)
+
+
+class _Obj:
+    """a printable object of a history with its uniform rendering interface"""
+
+    def __init__(self, spec, enums, enum_cls=None):
+        from ak.ppobj import PrettyPrinter, PPTable, PPRecordFmt
+        self.spec = spec
+        self.kind = spec["kind"]
+        k = self.kind
+        if k == "pp":
+            self.printer = PrettyPrinter(fmt_json=spec.get("json", False))
+            self.value = _val(spec["value"])
+        elif k == "table":
+            types_ = {f: enums[e] for f, e in spec.get("types", {}).items()}
+            titles = {f: _val(t) for f, t in spec.get("titles", {}).items()} or None
+            self.table = PPTable([tuple(_val(x) for x in r) for r in spec["records"]], fields=spec["fields"],
+                                 fmt=spec.get("fmt"), fields_types=types_ or None, fields_titles=titles,
+                                 header=spec.get("header"), footer=spec.get("footer"),
+                                 limits=tuple(spec["limits"]) if spec.get("limits") else None)
+        elif k == "rec":
+            types_ = {f: enums[e] for f, e in spec.get("types", {}).items()}
+            self.fmt = PPRecordFmt(spec["fmt"], fields=spec["fields"], fields_types=types_ or None)
+            self.record = tuple(_val(x) for x in spec["record"])
+        elif k == "ghist":
+            self.report = _mk_ghist(spec)
+        elif k == "hcmd":
+            self.func = _mk_hfunc(spec)
+        else:
+            raise ValueError("unknown kind " + k)
+
+    @property
+    def proto_kind(self):
+        return {"rec": "rec", "hcmd": "hcmd"}.get(self.kind, "obj")
+
+    def top_class(self):
+        from ak.ppobj import PrettyPrinter, PPTable, PPRecordFmt
+        from ak.ghist import GHistReport
+        from ak.hdoc import HCommand
+        return {"pp": PrettyPrinter, "table": PPTable, "rec": PPRecordFmt, "ghist": GHistReport,
+                "hcmd": HCommand}[self.kind].PALETTE_CLASS
+
+    def result(self, conf, no_color, palette=None):
+        """the lazily evaluated result object (or its closest analogue)"""
+        kw = dict(palette=palette) if palette is not None else dict(no_color=no_color, colors_conf=conf)
+        k = self.kind
+        if k == "pp":
+            return self.printer(self.value, **kw)
+        if k == "table":
+            return self.table.ch_text(**kw)
+        if k == "rec":
+            return self.fmt(self.record, **kw)
+        if k == "ghist":
+            return self.report.ch_text(**kw)
+        raise ValueError(k)
+
+    def lines(self, conf, no_color, palette=None):
+        """iteration over the result: list of generated lines (CHText or list of chunks)"""
+        from ak.hdoc import HCommand
+        if self.kind == "hcmd":
+            h = HCommand()          # palette of the global configuration, made at construction
+            if palette is not None:
+                h._c = palette
+            return list(h._gen_ch_lines(self.func, HCommand._DFLT_FILT_ARG, dets_level=h.dets_level, fmt_oneline=False))
+        if self.kind == "rec":
+            return list(self.result(conf, no_color, palette).columns)
+        return list(self.result(conf, no_color, palette))
+
+    def observe(self, conf, mode):
+        """the protocol reply of `render` for the real objects"""
+        from ak.hdoc import HCommand
+        nc = mode in ("n", "m")
+        if self.kind == "hcmd":
+            return "ok " + enc_str(HCommand()._make_help_text(self.func))
+        res = self.result(conf, nc)
+        if self.kind == "rec":
+            return "ok %s %s" % (enc_str(str(res)), enc_str(str(res.ch_text())))
+        if mode == "c":
+            return "ok " + enc_str(str(res))
+        if mode == "n":
+            return "ok %s %s" % (enc_str(str(res)), enc_str(res.plain_text()))
+        lines = [_line_str(l) for l in res]
+        whole = str(res)
+        return "ok %s %d%s" % (enc_str(whole), len(lines), "".join(" " + enc_str(l) for l in lines))
+
+
+def _line_str(line):
+    """what printing one generated line gives: a CHText, or the list of chunks of a table row"""
+    if isinstance(line, (list, tuple)):
+        return "".join(str(c) for c in line)
+    return str(line)
+
+
+# ------------------------------------------------------------------ shapes: tagging palettes
+_PROBE_CLS = None
+
+
+def _probe_class():
+    global _PROBE_CLS
+    if _PROBE_CLS is None:
+        from ak.color import Palette
+
+        class _ProbePalette(Palette):
+            """stands for a palette object; its accessors tag chunks with (class id, accessor number)"""
+
+            def get_color(self, synt_id):
+                return self._taggers.get(synt_id, self._taggers["text"])
+
+            def get_sub_palette(self, palette_class, modifier_name=None):
+                assert modifier_name is None
+                self._log.append(_cid(palette_class))
+                sub = self._subs.get(palette_class)
+                if sub is None:
+                    sub = self._subs[palette_class] = _mk_probe(palette_class, self._log)
+                return sub
+        _PROBE_CLS = _ProbePalette
+    return _PROBE_CLS
+
+
+def _mk_probe(real_cls, log):
+    from ak.color import CHText
+    p = object.__new__(_probe_class())
+    p._log, p._subs, p._taggers = log, {}, {}
+    for i, acc in enumerate(real_cls._LOCAL_SYNTAX):
+        def tagger(text, _pre="\x00c%d.%d\x01" % (_cid(real_cls), i)):
+            return CHText.Chunk(_pre, text, "\x02")
+        p._taggers[acc] = tagger
+        object.__setattr__(p, acc, tagger)
+    return p
+
+
+def _probe_enum_class():
+    from ak.ppobj import PPEnumFieldType
+    from ak.color import CHText
+
+    class _ProbeEnum(PPEnumFieldType):
+        """re-tags the chunks that come out of the cell cache with (enum number, value number)"""
+
+        def make_desired_cell_ch_chunks(self, value, fmt_modifier, field_palette):
+            chunks, align = super().make_desired_cell_ch_chunks(value, fmt_modifier, field_palette)
+            v = self._vreg.setdefault(value, len(self._vreg))
+            out = []
+            for c in chunks:
+                assert c.c_prefix.startswith("\x00c"), "enum cell chunk without palette tag"
+                out.append(CHText.Chunk("\x00e%d.%d.%s" % (self._eid, v, c.c_prefix[2:]), c.text, c.c_suffix))
+            return out, align
+    return _ProbeEnum
+
+
+def shape_of(spec, enum_specs, vregs):
+    """(top class id, sub-palette requests, lines) of a fresh copy of the object; `vregs[e]` numbers the
+    cell values of enum type e (by dict identity, as the cell cache does) consistently over a case"""
+    pe = _probe_enum_class()
+    enums = {}
+    for e, es in enum_specs.items():
+        ft = _mk_enum(es, pe)
+        ft._eid, ft._vreg = int(e), vregs.setdefault(e, {})
+        enums[e] = ft
+    obj = _Obj(spec, enums)
+    log = []
+    probe = _mk_probe(obj.top_class(), log)
+    lines = []
+    for line in obj.lines(None, False, palette=probe):
+        raw = isinstance(line, (list, tuple))
+        chunks = []
+        for c in (line if raw else line.chunks):
+            if c.c_prefix == "":
+                tag = "p"
+            else:
+                assert c.c_prefix[0] == "\x00" and c.c_prefix[-1] == "\x01", repr(c.c_prefix)
+                tag = c.c_prefix[1:-1]
+            chunks.append("%s=%s" % (tag, "" if c.text == "" else enc_str(c.text)))
+        lines.append(";".join(["r" if raw else "m"] + chunks))
+    subs = []
+    for c in log:
+        if c not in subs:
+            subs.append(c)
+    return "%d %s %s" % (_cid(obj.top_class()), ",".join(map(str, subs)) or "-", "/".join(lines) or "-")
+
+
+# ------------------------------------------------------------------ running a history on the real code
+def _reset():
+    """fresh interpreter state, as far as the colour machinery is concerned"""
+    import ak.color as color
+    for _, c in _classes():
+        c._PALETTE_NO_COLOR = None
+    for c in list(color._GSYNCED_PALETTES):
+        if c is not color.GlobalPalette:
+            del color._GSYNCED_PALETTES[c]
+    color.set_global_colors_config(color.ColorsConfig())
+    gc.collect()
+
+
+def _err(e):
+    return "err " + type(e).__name__
+
+
+def _replay(case, on_render=None):
+    """runs the operations of a case on live objects; returns the replies.
+    on_render(i, obj_spec, conf, mode): called after the i-th line (a render) was answered."""
+    import ak.color as color
+    _reset()
+    confs, enums, objs = {}, {}, {}
+    out = []
+    for i, line in enumerate(case["lines"]):
+        op, *a = line.split()
+        try:
+            if op == "conf":
+                confs[a[0]] = color.ColorsConfig(case["confs"][a[0]]["items"], no_color=a[1] == "1")
+                out.append("ok")
+            elif op == "drop":
+                del confs[a[0]]
+                gc.collect()
+                out.append("ok")
+            elif op == "setglobal":
+                color.set_global_colors_config(confs[a[0]])
+                gc.collect()
+                out.append("ok")
+            elif op == "enum":
+                enums[a[0]] = _mk_enum(case["enums"][a[0]])
+                out.append("ok")
+            elif op == "dropenum":
+                del enums[a[0]]
+                for o in [o for o, ob in objs.items() if a[0] in ob.spec.get("types", {}).values()]:
+                    del objs[o]
+                gc.collect()
+                out.append("ok")
+            elif op == "render":
+                o, k, mode = case["obj_of_line"][str(i)], a[1], a[2]
+                if o not in objs:
+                    objs[o] = _Obj(case["objs"][o], enums)
+                conf = None if k == "g" else confs[k]
+                out.append(objs[o].observe(conf, mode))
+                if on_render is not None:
+                    on_render(i, o, conf if conf is not None else color.get_global_colors_config(), mode)
+            elif op == "gp":
+                acc = list(color.GlobalPalette._LOCAL_SYNTAX)[int(a[0])]
+                out.append("ok " + enc_str(str(getattr(color.global_palette, acc)("x"))))
+            elif op == "gpi":
+                out.append("ok " + enc_str(str(color.global_palette["" if a[0] == "@" else a[0]]("x"))))
+            else:
+                out.append("bad-op")
+        except Exception as e:
+            out.append(_err(e))
+    return out
+
+
+def impl(case):
+    try:
+        return _replay(case)
+    finally:
+        _reset()
